@@ -124,6 +124,45 @@ def run(res, tier, seed):
                     first = {"files": fl, "what": e + f" (program with a '{cls}' violation, split over "
                              f"{len(fl)} files)", "trace": line, "stage": "diag/multi-file",
                              "replay_cmd": "echo '%s' | %s" % (pipe_req("lints,run", fl), RVH_DEBUG)}
+    # --- the rendered location: in the pretty output the markers stand under exactly the reported
+    # text, wherever in the file the line is (lines 9/10/11, 99/100/101, 999/1000: where the width of
+    # the line number changes), with leading tabs / spaces
+    import re as _re
+    import subprocess
+    from common import ENV, RVA, WORK, build_rva
+    build_rva()
+    pdir = os.path.join(WORK, "c09_pretty")
+    os.makedirs(pdir, exist_ok=True)
+    stats["pretty_markers_checked"] = 0
+    for k, (indent, pad) in enumerate([("    ", "\n"), ("\t", "# c\n"), ("  \t ", "   \n")]):
+        want_lines = [9, 10, 11, 99, 100, 101] + ([999, 1000, 1001] if tier != "quick" or k == 0 else [])
+        L = ["main:"]
+        for ln in want_lines:
+            while len(L) < ln - 1:
+                L.append(pad.rstrip("\n"))
+            L.append(f"{indent}add a0, t{ln % 5}, t{(ln + 1) % 5 + 1}")
+        L += ["    li a7, 10", "    ecall"]
+        path = os.path.join(pdir, f"p{k}.s")
+        with open(path, "w") as f:
+            f.write("\n".join(L) + "\n")
+        cp = subprocess.run([RVA, "lint", "--no-color", "--compact", path], capture_output=True, text=True, env=ENV, timeout=30)
+        pp = subprocess.run([RVA, "lint", "--no-color", path], capture_output=True, text=True, env=ENV, timeout=30)
+        locs = [(int(m.group(1)), int(m.group(2)), int(m.group(3)))
+                for m in _re.finditer(r" at (\d+) (\d+):(\d+)$", cp.stdout, _re.M)]
+        blocks = _re.findall(r"\n( *)(\d+) \| (.*)\n( *)\| ( *)(\^+)", pp.stdout)
+        if len(blocks) != len(locs) and first is None:
+            first = {"what": f"pretty output shows {len(blocks)} excerpts for {len(locs)} located diagnostics",
+                     "replay_cmd": f"{RVA} lint --no-color {path}", "stage": "pretty"}
+        for (sp1, num, shown, sp2, lead, carets), (ln, c1, c2) in zip(blocks, locs):
+            stats["pretty_markers_checked"] += 1
+            src_line = L[ln - 1]
+            want = src_line[c1 - 1:c2]
+            gutter_ok = len(sp1) + len(num) == len(sp2) - 1 or len(sp1) + len(num) + 1 == len(sp2)
+            under = shown[len(lead):len(lead) + len(carets)]
+            if (int(num) != ln or under != want or not gutter_ok) and first is None:
+                first = {"what": f"pretty output, diagnostic at line {ln} columns {c1}-{c2} ({want!r}): the markers "
+                                 f"stand under {under!r} of the excerpt {shown!r} (line number shown: {num})",
+                         "replay_cmd": f"{RVA} lint --no-color {path}", "stage": "pretty"}
     res.cov["evaluations"] = len(srcs) + len(multi)
     res.cov["distinct_nontrivial"] = len(set(srcs)) + len(multi)
     res.cov["rule"] = ("generated programs and statement soups rendered with random layout (leading blank "
